@@ -287,6 +287,94 @@ theorem sim_vbin {o : IntrinsicOp} {b : BinOp} {x y : VExpr} {x' y' : VAExpr} {t
             obtain ⟨vb, σ2⟩ := r2
             cases lift2 (binop W.P m) va vb <;> simp [vastVal, VExpr.litlike]
     · simp at ht
+  | land =>
+    rw [hm] at ht
+    have hb : tx = .sc .bool ∧ ty = .sc .bool ∧ t = .sc .bool := by
+      cases tx with
+      | vec k n => simp at ht
+      | sc k =>
+        cases ty with
+        | vec k2 n2 => cases k <;> simp at ht
+        | sc k2 => cases k <;> cases k2 <;> simp at ht <;> exact ⟨rfl, rfl, ht.symm⟩
+    obtain ⟨rfl, rfl, rfl⟩ := hb
+    have lx : x.litlike = false := by
+      cases h : x.litlike <;> simp
+      have := vlitlike_ty htx h
+      simp at this
+    have ly : y.litlike = false := by
+      cases h : y.litlike <;> simp
+      have := vlitlike_ty hty h
+      simp at this
+    have hpx := hx.plain lx
+    have hpy := hy.plain ly
+    constructor
+    · simp [VAst.typeOf, hsem, hm, hpx.1, hpy.1, vastTy, VExpr.litlike]
+    · intro σ
+      simp only [VAst.eval, hsem, hm, hpx.1, hpy.1, vconvR_self, hpx.2 σ, VIr.eval]
+      cases VIr.eval W ρ x σ with
+      | none => rfl
+      | some r =>
+        obtain ⟨v, σ1⟩ := r
+        cases v with
+        | vec vs => simp
+        | sc sv =>
+          cases sv with
+          | b bv =>
+            cases bv
+            · simp [vastVal, VExpr.litlike]
+            · simp only [hpy.2 σ1]
+              cases VIr.eval W ρ y σ1 with
+              | none => simp
+              | some r2 =>
+                obtain ⟨w, σ2⟩ := r2
+                cases w with
+                | vec ws => simp
+                | sc sw => cases sw <;> simp [vastVal, VExpr.litlike]
+          | _ => simp
+  | lor =>
+    rw [hm] at ht
+    have hb : tx = .sc .bool ∧ ty = .sc .bool ∧ t = .sc .bool := by
+      cases tx with
+      | vec k n => simp at ht
+      | sc k =>
+        cases ty with
+        | vec k2 n2 => cases k <;> simp at ht
+        | sc k2 => cases k <;> cases k2 <;> simp at ht <;> exact ⟨rfl, rfl, ht.symm⟩
+    obtain ⟨rfl, rfl, rfl⟩ := hb
+    have lx : x.litlike = false := by
+      cases h : x.litlike <;> simp
+      have := vlitlike_ty htx h
+      simp at this
+    have ly : y.litlike = false := by
+      cases h : y.litlike <;> simp
+      have := vlitlike_ty hty h
+      simp at this
+    have hpx := hx.plain lx
+    have hpy := hy.plain ly
+    constructor
+    · simp [VAst.typeOf, hsem, hm, hpx.1, hpy.1, vastTy, VExpr.litlike]
+    · intro σ
+      simp only [VAst.eval, hsem, hm, hpx.1, hpy.1, vconvR_self, hpx.2 σ, VIr.eval]
+      cases VIr.eval W ρ x σ with
+      | none => rfl
+      | some r =>
+        obtain ⟨v, σ1⟩ := r
+        cases v with
+        | vec vs => simp
+        | sc sv =>
+          cases sv with
+          | b bv =>
+            cases bv
+            · simp only [hpy.2 σ1]
+              cases VIr.eval W ρ y σ1 with
+              | none => simp
+              | some r2 =>
+                obtain ⟨w, σ2⟩ := r2
+                cases w with
+                | vec ws => simp
+                | sc sw => cases sw <;> simp [vastVal, VExpr.litlike]
+            · simp [vastVal, VExpr.litlike]
+          | _ => simp
   | _ => rw [hm] at ht; simp at ht
 
 theorem sim_vtern {c f g : VExpr} {c' f' g' : VAExpr} {tc tf tg t : VTy}
